@@ -23,6 +23,7 @@ struct World {
   StringLogger hlog;
   StringLogger elog[4];
   std::vector<std::vector<uint8_t>*> noise;
+  std::vector<uint32_t> func_labels;      // entry labels of the functions added by `prog … func*`, in order
 
   BaseEmitter* em(size_t i) {
     switch (i) {
@@ -41,6 +42,7 @@ struct World {
     for (auto* p : noise) delete p;
     noise.clear();
     static_mem.clear();
+    func_labels.clear();
   }
 
   void create(bool use_static, size_t static_size, bool use_a64) {
@@ -160,7 +162,7 @@ std::string dump() {
          (re->reloc_type() == RelocType::kExpression ? std::string("expr") : num(re->payload())) + ":" + num(re->format().value_size()) + "]";
   }
   c += ";unres=" + num(code.unresolved_fixup_count());
-  c += ";addrtab=" + std::string(code.has_address_table_section() ? "1" : "0");
+  c += ";addrtab=" + (code.has_address_table_section() ? "1:" + num(code.address_table_section()->virtual_size()) : std::string("0"));
   // attachment list
   c += ";att=";
   {
@@ -259,6 +261,7 @@ Error prog_func(x86::Compiler* cc, uint64_t seed, uint32_t n) {
   auto note = [&](Error err) { if (err != Error::kOk && first == Error::kOk) first = err; };
   FuncNode* fn = cc->add_func(FuncSignature::build<int, int, int>());
   if (!fn) return Error::kOutOfMemory;
+  W.func_labels.push_back(fn->label().id());
   uint32_t nv = 3 + r.below(14);       // more live values than registers => spills
   std::vector<x86::Gp> v;
   for (uint32_t i = 0; i < nv; i++) v.push_back(r.below(3) ? cc->new_gp32() : cc->new_gp64());
@@ -343,6 +346,7 @@ Error prog_funca(a64::Compiler* cc, uint64_t seed, uint32_t n) {
   auto note = [&](Error err) { if (err != Error::kOk && first == Error::kOk) first = err; };
   FuncNode* fn = cc->add_func(FuncSignature::build<int, int, int>());
   if (!fn) return Error::kOutOfMemory;
+  W.func_labels.push_back(fn->label().id());
   uint32_t nv = 3 + r.below(30);       // more live values than registers => spills
   std::vector<a64::Gp> v;
   for (uint32_t i = 0; i < nv; i++) v.push_back(r.below(3) ? cc->new_gp32() : cc->new_gp64());
@@ -371,6 +375,62 @@ Error prog_funca(a64::Compiler* cc, uint64_t seed, uint32_t n) {
   return first;
 }
 
+// A plain function with exactly `nv` virtual registers that all stay live to the end (nv large => every callee-saved
+// register is used and saved in the prolog; nv small => none is). No constants, no stack slot: position independent.
+template<typename CC, typename GP, typename MK32>
+Error prog_funcp_t(CC* cc, uint64_t seed, uint32_t n, uint32_t nv, MK32 w32) {
+  if (!cc->code()) return Error::kNotInitialized;
+  if (nv < 2) nv = 2;
+  Rng r(seed);
+  Error first = Error::kOk;
+  auto note = [&](Error err) { if (err != Error::kOk && first == Error::kOk) first = err; };
+  FuncNode* fn = cc->add_func(FuncSignature::build<int, int, int>());
+  if (!fn) return Error::kOutOfMemory;
+  W.func_labels.push_back(fn->label().id());
+  std::vector<GP> v;
+  for (uint32_t i = 0; i < nv; i++) v.push_back(cc->new_gp32());
+  fn->set_arg(0, w32(v[0]));
+  fn->set_arg(1, w32(v[1]));
+  for (uint32_t i = 2; i < nv; i++) note(cc->mov(w32(v[i]), Imm(int32_t(1 + r.below(1000)))));
+  Label skip = cc->new_label();
+  for (uint32_t i = 0; i < n; i++) {
+    GP a = v[r.below(nv)], b = v[r.below(nv)];
+    switch (r.below(3)) {
+      case 0: note(cc->add(w32(a), w32(a), w32(b))); break;
+      case 1: note(cc->mul(w32(a), w32(a), w32(b))); break;
+      case 2: note(cc->cmp(w32(a), w32(b))); break;
+    }
+  }
+  note(cc->bind(skip));
+  for (uint32_t i = 1; i < nv; i++) note(cc->add(w32(v[0]), w32(v[0]), w32(v[i])));
+  note(cc->ret(w32(v[0])));
+  note(cc->end_func());
+  return first;
+}
+
+Error prog_funcp(BaseCompiler* bc, uint64_t seed, uint32_t n, uint32_t nv) {
+  if (W.a64) {
+    a64::Compiler* cc = static_cast<a64::Compiler*>(bc);
+    return prog_funcp_t<a64::Compiler, a64::Gp>(cc, seed, n, nv, [](const a64::Gp& g) { return g.w(); });
+  }
+  // x86 has two-operand forms: wrap them so that the template above can use add(a, a, b)
+  struct CC2 {
+    x86::Compiler* c;
+    const CodeHolder* code() const { return c->code(); }
+    FuncNode* add_func(const FuncSignature& s) { return c->add_func(s); }
+    x86::Gp new_gp32() { return c->new_gp32(); }
+    Label new_label() { return c->new_label(); }
+    Error bind(const Label& l) { return c->bind(l); }
+    Error mov(const x86::Gp& a, const Imm& i) { return c->mov(a, i); }
+    Error add(const x86::Gp& a, const x86::Gp&, const x86::Gp& b) { return c->add(a, b); }
+    Error mul(const x86::Gp& a, const x86::Gp&, const x86::Gp& b) { return c->imul(a, b); }
+    Error cmp(const x86::Gp& a, const x86::Gp& b) { return c->cmp(a, b); }
+    Error ret(const x86::Gp& a) { return c->ret(a); }
+    Error end_func() { return c->end_func(); }
+  } cc2{static_cast<x86::Compiler*>(bc)};
+  return prog_funcp_t<CC2, x86::Gp>(&cc2, seed, n, nv, [](const x86::Gp& g) { return g.r32(); });
+}
+
 // ---- protocol -------------------------------------------------------------------------------------------------
 
 std::string step(const std::string& line) {
@@ -397,6 +457,7 @@ std::string step(const std::string& line) {
     Environment env(w.size() > 1 && w[1] == "x86" ? Arch::kX86 : w.size() > 1 && w[1] == "a64" ? Arch::kAArch64 : Arch::kX64);
     return err_name(code.init(env));
   }
+  if (op == "reset" || op == "reinit") W.func_labels.clear();
   if (op == "reset") { code.reset(w.size() > 1 && w[1] == "hard" ? ResetPolicy::kHard : ResetPolicy::kSoft); return "ok"; }
   if (op == "reinit") return err_name(code.reinit());
   if (op == "hlogger") { code.set_logger(w.size() > 1 && w[1] == "on" ? &W.hlog : nullptr); return "ok"; }
@@ -412,6 +473,15 @@ std::string step(const std::string& line) {
     return "ok";
   }
   if (op == "dump") return dump();
+  if (op == "link") {
+    // flatten + resolve + relocate to a base address: the section buffers (and the address table) get their final content
+    uint64_t base = 0x10000;
+    if (w.size() > 1) vh::parse_hex(w[1], base);
+    Error err = code.flatten();
+    if (err == Error::kOk) err = code.resolve_cross_section_fixups();
+    if (err == Error::kOk) err = code.relocate_to_base(base);
+    return err_name(err);
+  }
 
   BaseEmitter* e = emitter(1);
   if (!e) return "bad-emitter";
@@ -490,6 +560,30 @@ std::string step(const std::string& line) {
     return ja ? "j" + num(ja->annotation_id()) : std::string("j-");
   }
   if (op == "finalize") return err_name(e->finalize());
+  if (op == "jabs") {
+    // jmp / call to an absolute address: without a base address x86-64 records an address-table entry + relocation
+    uint64_t addr;
+    if (w.size() < 3 || !vh::parse_hex(w[2], addr)) return "bad-op";
+    bool call = w.size() > 3 && w[3] == "call";
+    if (W.a64) return err_name(e->emit(call ? a64::Inst::kIdBl : a64::Inst::kIdB, Imm(addr)));
+    return err_name(e->emit(call ? x86::Inst::kIdCall : x86::Inst::kIdJmp, Imm(addr)));
+  }
+  if (op == "fnbytes") {
+    // bytes of every function added by `prog … func*`: from its entry label to the next entry label / end of .text
+    std::string out = "fn";
+    Section* text = code.text_section();
+    for (size_t k = 0; k < W.func_labels.size(); k++) {
+      uint32_t id = W.func_labels[k];
+      if (!code.is_label_valid(id) || !code.is_label_bound(id)) { out += ":unbound"; continue; }
+      uint64_t from = code.label_offset(id), to = text->buffer_size();
+      for (size_t m = 0; m < W.func_labels.size(); m++) {
+        uint32_t o = W.func_labels[m];
+        if (code.is_label_valid(o) && code.is_label_bound(o) && code.label_offset(o) > from && code.label_offset(o) < to) to = code.label_offset(o);
+      }
+      out += ":" + vh::bytes_to_hex(text->data() + from, size_t(to - from));
+    }
+    return out;
+  }
   if (op == "err") {
     // operations that fail: used to put failures into histories
     uint64_t k = 0;
@@ -504,6 +598,12 @@ std::string step(const std::string& line) {
   if (op == "prog") {
     uint64_t seed, n;
     if (w.size() < 5 || !vh::parse_u64(w[3], seed) || !vh::parse_u64(w[4], n)) return "bad-op";
+    if (w[2] == "funcp") {
+      uint64_t nv = 2;
+      if (w.size() > 5) vh::parse_u64(w[5], nv);
+      if (!e->is_compiler()) return "bad-emitter";
+      return err_name(prog_funcp(static_cast<BaseCompiler*>(e), seed, uint32_t(n), uint32_t(nv)));
+    }
     if (W.a64) {
       if (w[2] == "asmx") return err_name(prog_asma(e, seed, uint32_t(n)));
       if (w[2] == "func") {
